@@ -297,6 +297,46 @@ func genC06(c *Ctx) {
 			}
 		}
 	}
+	// (d) more than t+1 valid shares offered at the same time by several goroutines: whatever the interleaving, the
+	// object ends with enough shares and hands out the group signature (a pool that can grow past t+1, or lose
+	// shares, never recovers)
+	nConc := 10
+	if c.thorough() {
+		nConc = 200
+	}
+	for it := 0; it < nConc; it++ {
+		nt := [][2]int{{4, 1}, {5, 2}, {7, 3}, {9, 2}}[it%4]
+		s := newThSetup(c, nt[0], nt[1])
+		c.Case("object-history/concurrent-valid-adds", "expect ok #", guard(func() string {
+			insp, err := crypto.NewBLSThresholdSignatureInspector(s.group, s.pks, s.t, s.msg, s.tag)
+			if err != nil {
+				return "err"
+			}
+			start := make(chan struct{})
+			var wg sync.WaitGroup
+			for i := 0; i < s.n; i++ {
+				wg.Add(1)
+				go func(i int) {
+					defer wg.Done()
+					<-start
+					if i%2 == 0 {
+						insp.VerifyAndAdd(i, s.shares[i])
+					} else {
+						insp.TrustedAdd(i, s.shares[i])
+					}
+				}(i)
+			}
+			close(start)
+			wg.Wait()
+			if !insp.EnoughShares() {
+				return "not-enough-shares-after-all-were-offered"
+			}
+			if _, err := insp.ThresholdSignature(); err != nil {
+				return "threshold-signature-fails-with-enough-valid-shares"
+			}
+			return sigOK(s, s.group, insp)
+		}))
+	}
 	// constructor guards
 	s := newThSetup(c, 3, 1)
 	ec := ecSk(ecCurves[0], big.NewInt(3))
